@@ -50,9 +50,8 @@ theorem inStep_acklist_mono :
   have hp := inPre_rcv regular wnd una st.k
   rw [inStep_k]
   split
-  · obtain ⟨b, h1⟩ := parseAck_frame (inPre regular wnd una st.k) sn
-    obtain ⟨b2, h2⟩ := parseFastack_frame (parseAck (inPre regular wnd una st.k) sn) sn ts
-    exact ⟨[], by rw [h2, h1]; simp [hp.2.2.1]⟩
+  · obtain ⟨b, u, h2⟩ := ackPath_frame (inPre regular wnd una st.k) sn ts
+    exact ⟨[], by rw [h2]; simp [hp.2.2.1]⟩
   · split
     · split
       · split
@@ -87,6 +86,118 @@ theorem drop_unaCount (u : U32) (l : List Seg) :
     by_cases h : itimediff u s.sn > 0
     · rw [if_pos h, List.drop_succ_cons, ih, List.dropWhile_cons_of_pos (by simpa using h)]
     · rw [if_neg h, List.drop_zero, List.dropWhile_cons_of_neg (by simpa using h)]
+
+/-! ### acknowledged heads leave the send buffer -/
+
+theorem dropAcked_eq_dropWhile (l : List Seg) : dropAcked l = l.dropWhile (fun s => s.acked) := by
+  induction l with
+  | nil => rfl
+  | cons s rest ih =>
+    unfold dropAcked
+    by_cases h : s.acked = true
+    · rw [if_pos h, ih, List.dropWhile_cons_of_pos h]
+    · rw [if_neg h, List.dropWhile_cons_of_neg h]
+
+theorem dropAcked_head (l : List Seg) (s : Seg) (rest : List Seg) (h : dropAcked l = s :: rest) : s.acked = false := by
+  induction l with
+  | nil => simp [dropAcked] at h
+  | cons a t ih =>
+    unfold dropAcked at h
+    split at h
+    · exact ih h
+    · rename_i hc
+      simp only [List.cons.injEq] at h
+      rw [← h.1]; simpa using hc
+
+/-- the head of `snd_buf`, if any, is a live (not individually acknowledged) segment and `snd_una`
+is its `sn`; with an empty buffer `snd_una = snd_nxt` -/
+def HeadLive (k : Kcp) : Prop :=
+  match k.snd_buf with
+  | s :: _ => s.acked = false ∧ k.snd_una = s.sn
+  | [] => k.snd_una = k.snd_nxt
+
+theorem shrinkBuf_headLive (k : Kcp) : HeadLive (shrinkBuf k) := by
+  unfold HeadLive
+  rw [shrinkBuf_eq]
+  simp only []
+  cases h : dropAcked k.snd_buf with
+  | nil => rfl
+  | cons s rest => exact ⟨dropAcked_head _ _ _ h, rfl⟩
+
+theorem fastLoop_head (sn ts fr : U32) (s : Seg) (rest : List Seg) :
+    ∃ s' rest', (fastLoop sn ts fr (s :: rest)).buf = s' :: rest' ∧ s'.sn = s.sn ∧ s'.acked = s.acked := by
+  unfold fastLoop
+  split
+  · exact ⟨s, rest, rfl, rfl, rfl⟩
+  · split
+    · exact ⟨_, _, rfl, rfl, rfl⟩
+    · exact ⟨_, _, rfl, rfl, rfl⟩
+
+/-- `parse_fastack` changes neither which segment is at the head nor its `acked` flag nor `snd_una`/`snd_nxt` -/
+theorem parseFastack_headLive (k : Kcp) (sn ts : U32) (h : HeadLive k) : HeadLive (parseFastack k sn ts).1 := by
+  unfold parseFastack
+  split
+  · exact h
+  · unfold HeadLive at h ⊢
+    simp only []
+    cases hb : k.snd_buf with
+    | nil => rw [hb] at h; unfold fastLoop; exact h
+    | cons s rest =>
+      rw [hb] at h
+      simp only [] at h
+      obtain ⟨s', rest', e, e1, e2⟩ := fastLoop_head sn ts k.fastresend s rest
+      rw [e]
+      simp only []
+      rw [e1, e2]; exact h
+
+/-- setting fields other than `snd_buf`, `snd_una`, `snd_nxt` keeps `HeadLive` -/
+theorem HeadLive.of_same {a b : Kcp} (h1 : a.snd_buf = b.snd_buf) (h2 : a.snd_una = b.snd_una)
+    (h3 : a.snd_nxt = b.snd_nxt) (hb : HeadLive b) : HeadLive a := by
+  unfold HeadLive at hb ⊢; rw [h1, h2, h3]; exact hb
+
+theorem inPre_headLive (regular : Bool) (wnd : BitVec 16) (una : U32) (k : Kcp) : HeadLive (inPre regular wnd una k) := by
+  unfold inPre; exact shrinkBuf_headLive _
+
+/-- EVERY step of the parse loop (any command, any state) ends with a live head: `shrink_buf` runs in
+the prologue and again after `parse_ack` -/
+theorem inStep_headLive (regular : Bool) (conv : U32) (cmd frg : BitVec 8) (wnd : BitVec 16) (ts sn una : U32)
+    (payload : Bytes) (st : InLoop) : HeadLive (inStep regular conv cmd frg wnd ts sn una payload st).k := by
+  have hp := inPre_headLive regular wnd una st.k
+  rw [inStep_k]
+  split
+  · exact parseFastack_headLive _ sn ts (shrinkBuf_headLive _)
+  · split
+    · split
+      · split
+        · obtain ⟨rb, rq, rn, h⟩ := parseData_frame
+            { inPre regular wnd una st.k with acklist := (inPre regular wnd una st.k).acklist ++ [⟨sn, ts⟩] }
+            (pushSeg conv cmd frg wnd ts sn una payload)
+          rw [h]; exact hp
+        · exact hp
+      · exact hp
+    · split
+      · exact hp
+      · exact hp
+
+theorem inputLoop_headLive (regular : Bool) (fuel : Nat) (data : Bytes) (st : InLoop) (h : HeadLive st.k) :
+    HeadLive (inputLoop regular fuel data st).k := by
+  apply inputLoop_induct regular (fun x => HeadLive x.k)
+  · intro st' r h'; exact h'
+  · intro conv cmd frg wnd ts sn una payload st' _ _ _ _
+    exact inStep_headLive regular conv cmd frg wnd ts sn una payload st'
+  · exact h
+
+/-- an ACK for the head's own `sn` (inside `[snd_una, snd_nxt)`) removes the head at once -/
+theorem parseAck_head_leaves (k : Kcp) (s : Seg) (rest : List Seg) (hb : k.snd_buf = s :: rest)
+    (h1 : itimediff s.sn k.snd_una ≥ 0) (h2 : itimediff s.sn k.snd_nxt < 0) :
+    (shrinkBuf (parseAck k s.sn)).snd_buf = dropAcked rest := by
+  rw [shrinkBuf_eq]
+  unfold parseAck
+  rw [if_neg (by omega)]
+  simp only [hb]
+  unfold ackLoop
+  rw [if_pos rfl]
+  simp only [dropAcked, ↓reduceIte]
 
 /-! ### the move loop runs to a fixpoint -/
 
@@ -232,9 +343,8 @@ theorem inStep_probe :
   by_cases h1 : cmd.toNat = IKCP_CMD_ACK
   · have hnw : ¬ cmd.toNat = IKCP_CMD_WASK := by rw [h1]; decide
     rw [if_pos h1, if_neg hnw]
-    obtain ⟨b, e1⟩ := parseAck_frame (inPre regular wnd una st.k) sn
-    obtain ⟨b2, e2⟩ := parseFastack_frame (parseAck (inPre regular wnd una st.k) sn) sn ts
-    rw [e2, e1]; exact hp
+    obtain ⟨b, u, e2⟩ := ackPath_frame (inPre regular wnd una st.k) sn ts
+    rw [e2]; exact hp
   · rw [if_neg h1]
     by_cases h2 : cmd.toNat = IKCP_CMD_PUSH
     · have hnw : ¬ cmd.toNat = IKCP_CMD_WASK := by rw [h2]; decide
